@@ -386,7 +386,12 @@ def threshold_bits(ref, cfg, j, g, v):
         cpm = (row[g] * 10 ** 6 / tot) if tot > 0 else fractions.Fraction(0)
         one = fractions.Fraction(1)
         gt0 = (cpm > 0, cpm > 0)
-        gt1 = (cpm > one * (1 + TIE), cpm > one * (1 - TIE))
+        if cpm == 1:
+            # CPM is exactly 1: the float the harness obtained by the same
+            # numpy operations decides (it is 1.0 unless rounding intervenes)
+            gt1 = (float(v) > 1.0, float(v) > 1.0)
+        else:
+            gt1 = (cpm > one * (1 + TIE), cpm > one * (1 - TIE))
         ge1 = (cpm >= 1, cpm > 1 - WINDOW)
     else:
         x = stats_util.frac(v)
